@@ -427,7 +427,7 @@ _definitions = {
     "AdditionalLine": {
         "type": "object",
         "properties": {
-            "line": {"type": "integer"},
+            "line": {"type": ["integer", "null"]},
             "additional_offsets": {
                 "type": "array",
                 "items": {"type": "integer"},
